@@ -8,7 +8,7 @@ DRIVERS = [
     dict(name="life_dylib", src="life.cpp", defines=["LIFE_DYLIB"], ops=["lifed"]),
 ]
 ALPHA14 = ["c:0:1", "c:0:0", "c:0:2", "d:0", "m:0", "f:0", "fo:0", "fv:0:1", "fv:0:0", "fv:1:0", "r:0:0:1", "u:0", "l:0:5", "il:0:5", "lb:0:5", "lb:0:6", "ilb:0:6", "lb:1:5", "fa:0:5", "fa:0:6", "x:0:64", "gs:0:0",
-           "c:1:1", "d:1", "x:1:4096", "r:1:1:1", "r:1:0:1", "m:1", "c:2:1", "d:2", "x:2:0", "q:0"]
+           "rx:0:0:1", "rx:1:0:1", "c:1:1", "d:1", "x:1:4096", "r:1:1:1", "r:1:0:1", "m:1", "c:2:1", "d:2", "x:2:0", "q:0"]
 
 
 def gen_life(tier, rng, translation_heavy=False):
@@ -29,6 +29,11 @@ def gen_life(tier, rng, translation_heavy=False):
         for pre in (["c:0:1", "r:0:0:1", "d:0", "c:0:0"], ["c:0:1", "r:0:0:1", "d:0"], ["c:0:0"], []):
             for tail in (["u:0"], ["f:0"], ["fo:0"], ["fv:0:1"], ["m:0"], ["r:1:0:2"], ["u:0", "q:0"], ["c:1:1", "fv:0:1", "u:0"]):
                 cases.append("life32 " + " ".join(pre + tail))
+        # a registration refused outside the window (recoverable abort) leaves no trace: the same function registers inside the next window
+        for pre in ([], ["c:0:1", "d:0"], ["c:0:0"], ["c:0:1", "r:0:0:1"]):
+            for mid in (["rx:0:0:1"], ["rx:1:0:1"], ["rx:0:0:1", "rx:0:0:1"]):
+                for tail in (["c:0:1", "r:0:0:1"], ["c:0:1", "r:1:0:1", "go:0"], ["c:0:1", "rx:0:0:1", "u:0", "r:0:0:1"], ["d:0", "c:0:1", "r:1:0:1"]):
+                    cases.append("life32 " + " ".join(pre + mid + tail))
     for _ in range(4000 if tier == "quick" else 40000):
         n = rng.randrange(4, 16)
         cases.append("life32 " + " ".join(rng.choice(alpha) for _ in range(n)))
@@ -52,6 +57,6 @@ def NONTRIVIAL(case, model, cls):
 
 RULE = ("histories over 3 sandbox objects of verif32 (create with injected failure, destroy, malloc, free, register, unregister, by-name lookup and internal lookup (back end asked or "
         "served from cache), guest call of a raw entry-point slot, example-based pointer translation into each object's region): exhaustive to depth 3 (quick)/4 (thorough) over an alphabet "
-        "of 28 operations, random to length 15; every seventh history also on rlbox_noop_sandbox. Every outcome of every step is compared; an abort ends the history.")
+        "of 34 operations (incl. registrations whose abort is recoverable: a refused registration leaves no trace), random to length 15; every seventh history also on rlbox_noop_sandbox. Every outcome of every step is compared; an abort ends the history.")
 TRUSTED = ["model coq/World.v hand-written; tied by differential correspondence of whole histories"]
-ASSUMPTIONS = ["abort is terminal (the history ends at the first failed dynamic_check)", "single thread (C18 covers threads)"]
+ASSUMPTIONS = ["abort is terminal (the history ends at the first failed dynamic_check) except for the recoverable registration op rx", "single thread (C18 covers threads)"]
